@@ -1366,6 +1366,7 @@ int32_t jls_core_repair_fsr(struct jls_core_s * self, uint16_t signal_id) {
     jls_core_fsr_sample_buffer_alloc(signal_info->track_fsr);
     const size_t data_sz_max = sizeof(struct jls_payload_header_s)
             + (jls_datatype_parse_size(signal_info->signal_def.data_type) * (size_t) samples_per_data) / 8;
+    struct jls_core_chunk_s data_prev = {.offset=0};
     while (offset) {
         if (jls_raw_chunk_seek(self->raw, offset) || jls_core_rd_chunk(self)) {
             break;
@@ -1382,6 +1383,10 @@ int32_t jls_core_repair_fsr(struct jls_core_s * self, uint16_t signal_id) {
                 // they cannot be recovered, so the signal ends here.
                 JLS_LOGW("repair_fsr signal_id %d: omitted blocks before %" PRIi64 " are lost, truncating",
                          (int) signal_id, sample_id_chunk);
+                if (data_prev.offset) {
+                    data_prev.hdr.item_next = 0;
+                    ROE(jls_core_update_chunk_header(self, &data_prev));
+                }
                 break;
             }
             sample_id_expect = sample_id_chunk + samples_per_data;
@@ -1397,6 +1402,7 @@ int32_t jls_core_repair_fsr(struct jls_core_s * self, uint16_t signal_id) {
         signal_info->track_fsr->data_length = signal_info->track_fsr->data->header.entry_count;
 
         int64_t offset_next = self->chunk_cur.hdr.item_next;
+        data_prev = self->chunk_cur;
         if (!skip_summary) {
             // a full summary is written out: append, do not overwrite what follows this data chunk
             jls_raw_seek_end(self->raw);
